@@ -97,7 +97,7 @@ func c04Apply(cl *sim.Cluster, table string, addrs []string, ev c04Event, seq in
 		if i+1 >= len(regs) {
 			return "noop"
 		}
-		cl.Merge(regs[i], regs[i+1], id, addr)
+		cl.MergeIfNeighbours(regs[i], regs[i+1], id, addr)
 	case "transient":
 		cl.Lock()
 		for k := 0; k < ev.Count; k++ {
@@ -162,6 +162,28 @@ func c04Apply(cl *sim.Cluster, table string, addrs []string, ev c04Event, seq in
 		cl.Lock()
 		cl.MetaAddr = addr
 		cl.Unlock()
+	case "mergeheld":
+		// two neighbours stop serving while hbase:meta answers nothing: whoever asks for them parks a
+		// re-establisher in its lookup; the two are merged meanwhile, and all the parked lookups are
+		// answered at the same instant (several establishers learn about the same new region at once)
+		i := ((ev.Region % len(regs)) + len(regs)) % len(regs)
+		if i+1 >= len(regs) {
+			return "noop"
+		}
+		a, b := regs[i], regs[i+1]
+		cl.Lock()
+		a.Transient = append(a.Transient, sim.Exc{Class: sim.NSRE, Stack: sim.NSRE + ": closing for merge"})
+		b.Transient = append(b.Transient, sim.Exc{Class: sim.NSRE, Stack: sim.NSRE + ": closing for merge"})
+		cl.MetaHold = true
+		cl.Unlock()
+		hold := time.Duration(ev.DownMS) * time.Millisecond
+		go func() {
+			time.Sleep(hold)
+			cl.MergeIfNeighbours(a, b, id, addr)
+			cl.Lock()
+			cl.MetaHold = false
+			cl.Unlock()
+		}()
 	}
 	return ev.Kind
 }
@@ -170,6 +192,8 @@ func c04RunInBubble(c c04Case, concurrentInjector bool) (out Outcome) {
 	cl := c.Layout.build()
 	cl.Tape = c.Tape
 	cl.PermuteMulti = true
+	bubbleDebug = func() string { return cl.RecentExecs(60) }
+	defer func() { bubbleDebug = nil }()
 	for mk, class := range c.Fatal {
 		// every attempt that reaches the owning region is answered with the exception (a
 		// response can be lost with its connection, the request is then legitimately re-sent)
@@ -305,14 +329,18 @@ func c04RunInBubble(c c04Case, concurrentInjector bool) (out Outcome) {
 			}
 		}
 	}
+	// (what blocked requests report once the harness closes the client is not their verdict)
+	mu.Lock()
+	firstBeforeClose := first
+	mu.Unlock()
 	client.Close()
 	drainClient()
 	cl.Stop()
 	if finished {
 		<-done
 	}
-	if first != nil {
-		return *first
+	if firstBeforeClose != nil {
+		return *firstBeforeClose
 	}
 	if !finished {
 		mu.Lock()
